@@ -68,17 +68,27 @@ def pool():
     # range and dual with different dof counts and a full-rank mass matrix (DP1 range, P1 dual)
     add("Vdqp", laplace.single_layer(S["d"], S["q"], S["p"]), "d", "q", "p")
     add("Ipqp", sparse.identity(S["p"], S["q"], S["p"]), "p", "q", "p")
+    class _LazyW(dict):
+        """Dense weak forms assembled on first use (each costs JIT time)."""
+
+        def __missing__(self, name):
+            w = L[name]["op"].weak_form()
+            val = np.asarray(w.to_dense()) if _is_dense(w) else np.asarray(w.to_sparse().todense())
+            self[name] = val
+            return val
+
+    class _LazyM(dict):
+        def __missing__(self, key):
+            a, b = key
+            val = np.asarray(sparse.identity(S[a], S[a], S[b]).weak_form().to_sparse().todense())
+            self[key] = val
+            return val
+
+    WW = _LazyW()
     for name, ent in L.items():
-        w = ent["op"].weak_form()
-        ent["W"] = np.asarray(w.to_dense()) if not hasattr(w, "to_sparse") or _is_dense(w) else np.asarray(w.to_sparse().todense())
-    # mass matrices between spaces (rows: dual, cols: primal)
-    M = {}
-    for a in ("p", "d", "q", "pb"):
-        for b in ("p", "d", "q", "pb"):
-            if (a == "pb") != (b == "pb"):
-                continue
-            M[(a, b)] = np.asarray(sparse.identity(S[a], S[a], S[b]).weak_form().to_sparse().todense())
-    _POOL.update({"S": S, "L": L, "M": M, "gA": gA, "gB": gB, "k": k})
+        ent["name"] = name
+    M = _LazyM()
+    _POOL.update({"S": S, "L": L, "M": M, "W": WW, "gA": gA, "gB": gB, "k": k})
     return _POOL
 
 
@@ -101,7 +111,7 @@ def _build(tree, P):
     kind = tree[0]
     if kind == "leaf":
         ent = P["L"][tree[1]]
-        return ent["op"], ent["W"], ent["type"]
+        return ent["op"], P["W"][tree[1]], ent["type"]
     if kind == "scal":
         a = _SCALARS[tree[1]]
         o, W, t = _build(tree[2], P)
@@ -267,13 +277,13 @@ def check_discrete(desc):
     dvals = rng.standard_normal(n)
     col, row = rng.standard_normal(n) + 1j * rng.standard_normal(n), rng.standard_normal(n)
     leaves = {
-        "Vp": (L["Vp"]["op"].weak_form(), L["Vp"]["W"]),
-        "Kp": (L["Kp"]["op"].weak_form(), L["Kp"]["W"]),
-        "Ip": (L["Ip"]["op"].weak_form(), L["Ip"]["W"]),
-        "Mp": (L["Mp"]["op"].weak_form(), L["Mp"]["W"]),
+        "Vp": (L["Vp"]["op"].weak_form(), P["W"]["Vp"]),
+        "Kp": (L["Kp"]["op"].weak_form(), P["W"]["Kp"]),
+        "Ip": (L["Ip"]["op"].weak_form(), P["W"]["Ip"]),
+        "Mp": (L["Mp"]["op"].weak_form(), P["W"]["Mp"]),
         "Diag": (DiagonalOperator(dvals), np.diag(dvals)),
         "R1": (DiscreteRankOneOperator(col, row), np.outer(col, row)),
-        "InvI": (InverseSparseDiscreteBoundaryOperator(L["Ip"]["op"].weak_form()), np.linalg.inv(L["Ip"]["W"])),
+        "InvI": (InverseSparseDiscreteBoundaryOperator(L["Ip"]["op"].weak_form()), np.linalg.inv(P["W"]["Ip"])),
         "Zero": (ZeroDiscreteBoundaryOperator(n, n), np.zeros((n, n))),
     }
 
@@ -377,10 +387,13 @@ def check_gridfunctions(desc):
     got = g.coefficients
     scale = max(1.0, float(np.max(np.abs(c))))
     cond = np.linalg.cond(M) if M.shape[0] == M.shape[1] else 1e3
-    if np.max(np.abs(got - c)) > 1e-10 * scale * max(cond, 10):
+    # division by a single-precision numpy scalar is carried out as multiplication with its (single-precision) reciprocal
+    single = any(t in str(desc["tree"]) for t in ("'f32'", "'c64'")) and "'div'" in str(desc["tree"])
+    gtol = 1e-6 if single else 1e-10
+    if np.max(np.abs(got - c)) > gtol * scale * max(cond, 10):
         _fail("gridfunction/coefficients", f"{desc['tree']}: coefficients deviate by {np.max(np.abs(got - c)):.2e}")
     pr = g.projections(dual)
-    if np.max(np.abs(pr - M @ c)) > 1e-10 * scale * max(1.0, float(np.max(np.abs(M)))) * 10:
+    if np.max(np.abs(pr - M @ c)) > gtol * scale * max(1.0, float(np.max(np.abs(M)))) * 10:
         _fail("gridfunction/projections", f"{desc['tree']}: projections deviate by {np.max(np.abs(pr - M @ c)):.2e}")
     return {"nontrivial": desc["tree"][0] != "leaf", "labels": ["gridfunction_tree", "mixed_rep" if "dual" in str(desc["tree"]) and "primal" in str(desc["tree"]) else "single_rep"]}
 
@@ -459,7 +472,7 @@ def check_blocked(desc):
         for j in range(n):
             if lay[i][j] is not None:
                 B[i, j] = L[lay[i][j]]["op"]
-                blocks[i][j] = L[lay[i][j]]["W"]
+                blocks[i][j] = P["W"][lay[i][j]]
     doms = [P["S"][t] for t in desc["dom_types"]]
     rngs = [P["S"][t] for t in desc["rng_types"]]
     duals = [P["S"][t] for t in desc["dual_types"]]
@@ -532,17 +545,16 @@ def setup(spec):
     pool()
 
 
-def shards(tier):
+def shards(tier, seed=1):
     n = 1 if tier == "quick" else 10
     return [
-        {"check": "boundary_tree", "examples": 150 * n, "budget_s": 150 * n, "rep": 0},
-        {"check": "boundary_tree", "examples": 150 * n, "budget_s": 150 * n, "rep": 1},
+        {"check": "boundary_tree", "examples": 120 * n, "budget_s": 360 * n, "rep": 0},
         {"check": "illtyped", "examples": 120 * n, "budget_s": 100 * n},
-        {"check": "discrete", "examples": 300 * n, "budget_s": 120 * n},
-        {"check": "gridfunctions", "examples": 200 * n, "budget_s": 120 * n},
-        {"check": "potentials", "examples": 60 * n, "budget_s": 120 * n},
-        {"check": "blocked", "examples": 80 * n, "budget_s": 120 * n},
-    ]
+        {"check": "discrete", "examples": 300 * n, "budget_s": 200 * n},
+        {"check": "gridfunctions", "examples": 200 * n, "budget_s": 150 * n},
+        {"check": "potentials", "examples": 60 * n, "budget_s": 200 * n},
+        {"check": "blocked", "examples": 60 * n, "budget_s": 300 * n},
+    ] + ([{"check": "boundary_tree", "examples": 1200, "budget_s": 3000, "rep": 1}] if tier != "quick" else [])
 
 
 _TYPES = {
